@@ -1136,3 +1136,47 @@ func sortFields(fs []fieldM) {
 		}
 	}
 }
+
+// objectlessCycle reports whether some user type reaches itself through
+// arrays, maps, unions and user type references only, never entering an
+// object. goa's DSL cannot build such a graph (recursion needs the lazily
+// evaluated attribute list of an object) and neither goa's hasher nor the
+// reference serialiser terminates on it, so it is outside the domain.
+func objectlessCycle(g *graphM) bool {
+	var reach func(t *typeM, from int, seen map[int]bool) bool
+	reach = func(t *typeM, from int, seen map[int]bool) bool {
+		if t == nil {
+			return false
+		}
+		switch t.K {
+		case "array":
+			return t.Elem != nil && reach(t.Elem.T, from, seen)
+		case "map":
+			return (t.Key != nil && reach(t.Key.T, from, seen)) || (t.Elem != nil && reach(t.Elem.T, from, seen))
+		case "union":
+			for _, f := range t.Fields {
+				if f.A != nil && reach(f.A.T, from, seen) {
+					return true
+				}
+			}
+		case "ref":
+			if t.Ref == from {
+				return true
+			}
+			if seen[t.Ref] || t.Ref < 0 || t.Ref >= len(g.UTs) {
+				return false
+			}
+			seen[t.Ref] = true
+			if a := g.UTs[t.Ref].A; a != nil {
+				return reach(a.T, from, seen)
+			}
+		}
+		return false
+	}
+	for i, ut := range g.UTs {
+		if ut.A != nil && reach(ut.A.T, i, map[int]bool{}) {
+			return true
+		}
+	}
+	return false
+}
